@@ -105,6 +105,16 @@ def run(env):
                 m[k] = (m[k] + [m[k][-1]] * 2)[:ln]
             vc.append(shuf.check_case(sp, proof=wire.hx(wire.proof_bytes(fl, m)), tag="lengths"))
         vc.append(shuf.check_case(sp, es=[], out=[], gens=sp["_gens"][:1], tag="N=0"))
+        # statement and proof resized consistently to k items, k = 0 (all-empty proof, one generator) .. n+1
+        for k in range(0, n + 2):
+            if k == n:
+                continue
+            m = copy.deepcopy(pf)
+            for kk in ("t_hats", "s_hats", "s_primes", "cs", "c_hats"):
+                m[kk] = (m[kk] + [m[kk][-1]] * 2)[:k]
+            vc.append(shuf.check_case(sp, proof=wire.hx(wire.proof_bytes(fl, m)), es=(sp["_es"] + sp["_es"])[:k],
+                                      out=(sp["_out"] + sp["_out"])[:k], gens=(sp["_gens"] + sp["_gens"][1:])[:k + 1],
+                                      tag="N=0-empty-proof" if k == 0 else "resized-consistently"))
         vc.append(shuf.check_case(sp, out=sp["_out"][:-1], tag="mismatch"))
         vc.append(shuf.check_case(sp, out=sp["_out"] + sp["_out"], tag="mismatch"))
         vc.append(shuf.check_case(sp, es=sp["_es"] + sp["_es"], gens=sp["_gens"] + sp["_gens"][1:], tag="mismatch"))
@@ -126,7 +136,23 @@ def run(env):
         for _ in range(10 if env.quick else 60):
             rc.append({"ctx": "S", "op": "verify", "args": [fe, hexb(r.randbytes(32)), hexb(r.randbytes(64)), hexb(r.randbytes(5))], "_len": 101, "tag": "signature"})
             rc.append({"ctx": "S", "op": "from_string", "args": [fe, r.choice(["sk", "pk", "sig"]), "".join(r.choice("ABCabc019+/=- \n") for _ in range(r.choice([0, 1, 43, 44, 86, 88])))], "_len": 90, "tag": "signature"})
+    # ristretto verifier on hand-made decodable proofs: the all-empty proof (5 identity points, 4 zero scalars, five
+    # zero counts = 308 zero bytes) against N = 0 with one generator; the same bytes against N = 1; and a proof
+    # whose vectors have one identity / zero item each against N = 1 and N = 2
+    g1 = env.harness([{"ctx": "R", "op": "generators", "args": [str(k), "x:"], "tag": "ristretto"} for k in (1, 2, 3)])
+    idp = "00" * 32
+    pf0 = "x:" + "00" * 308
+    one = lambda item: "01000000" + "20000000" + item
+    pf1 = "x:" + idp * 5 + one(idp) + "00" * 128 + one("00" * 32) + one("00" * 32) + one(idp) + one(idp)
+    pkR = env.harness([{"ctx": "R", "op": "pk_of_sk", "args": ["5"]}])[0]
+    ctR = [g1[0][0], g1[0][0]]
+    for (gens, pfb, es, tag) in ((g1[0], pf0, [], "N=0 all-empty proof"), (g1[1], pf0, [ctR], "N=1 all-empty proof"),
+                                (g1[1], pf1, [ctR], "N=1 identity proof"), (g1[2], pf1, [ctR, ctR], "N=2 one-item proof"),
+                                (g1[0], pf1, [], "N=0 one-item proof")):
+        rc.append({"ctx": "R", "op": "check_proof", "args": [pkR, gens, pfb, es, es, "x:"], "_len": 400, "tag": "ristretto-verifier " + tag})
     for c, o in zip(rc, env.harness(rc)):
+        if c["op"] == "check_proof" and o not in (True, False, "err"):
+            env.violation("ristretto check_proof returns %s on a decodable hand-made proof (%s)" % (o, c["tag"]), {"kind": "battery", "case": c, "out": o})
         if o in ("panic", "abort", "not_run"):
             env.violation("%s %ss on arbitrary input (%s)" % (c["op"], o, c["ctx"]), {"kind": "battery", "case": c, "out": o})
         elif c["op"].startswith("peak:") and isinstance(o, list) and o[1] > 64 * c["_len"] + 262144:
